@@ -6,7 +6,7 @@ Open Scope N_scope.
 
 Ltac simp := cbn [fst snd pc prog fuse arg epoch handles rchange rgen rdata pend ustart ulast uprev
                   cap dist0 dist1 dist2 cells igen gens datas change clock published oplog settled
-                  set_pc set_fuse set_prog set_handles set_pend set_epoch set_snap set_ughost set_arg done
+                  set_pc set_fuse set_prog set_handles set_pend set_epoch set_snap set_ughost set_arg set_crash done abandon dirty orph dead
                   set_cells set_igen set_gens set_datas set_published set_settled tick complete
                   in_rec add_slot busy refreshing scanned in_upd me] in *.
 
